@@ -264,9 +264,26 @@ def window_constant(X, lags, L):
 
 
 def CA(X):
+    """The data as [time, index] or with several spatial dimensions
+    ("multidimensional numpy array ... with time in first dimension"):
+    [time, a, b] with a * b = N, [time, 1, N] or [time, N, 1] - chosen from
+    the values, always the same N variables in the same order."""
+    import zlib
     from pyunicorn.funcnet import CouplingAnalysis
-    return CouplingAnalysis(represent(np.array(X, dtype=np.float64)),
-                            silence_level=3)
+    X = np.array(X, dtype=np.float64)
+    if X.ndim == 2 and X.size:
+        T, N = X.shape
+        k = zlib.crc32(X.tobytes()) % 4
+        if k == 1:
+            div = [a for a in range(2, N) if N % a == 0]
+            if div:
+                a = div[zlib.crc32(X.tobytes()) // 4 % len(div)]
+                X = X.reshape(T, a, N // a)
+        elif k == 2:
+            X = X.reshape(T, 1, N)
+        elif k == 3:
+            X = X.reshape(T, N, 1)
+    return CouplingAnalysis(represent(X), silence_level=3)
 
 
 # ========================================================= cross correlation
